@@ -117,6 +117,8 @@ def decide(prop, tier='quick', seed=0, units=None, jobs=8, quiet=False):
             obl = r.obligations.get(key, {})
             if f['known'] or f['mode'] == 'external_body':
                 continue
+            if any(x['function'] == f['qual'] for x in fn_list):
+                continue   # prelude items (e.g. Types::next_log_index) are re-proved in every unit; count once
             n = sum(obl.values())
             n_obl += n
             for k, v in obl.items():
@@ -132,14 +134,15 @@ def decide(prop, tier='quick', seed=0, units=None, jobs=8, quiet=False):
         for fl in r.failures:
             if prop in fl.props:
                 violations.append((r, fl))
+        main_oids = set(fl.oid for fl in r.failures)
         for fl in r.known_failures:
-            if prop not in fl.props:
-                continue
-            if fl.clause_known and fl.clause_known in known_ids:
-                known_hits.append((r, fl, known_ids[fl.clause_known]))
-            elif fl.clause_known:
+            if prop not in fl.props or fl.oid in main_oids:
+                continue   # failures a twin shares with the main variant are the main variant's
+            kid = fl.clause_known or fl.known
+            if kid in known_ids:
+                known_hits.append((r, fl, known_ids[kid]))
+            else:
                 violations.append((r, fl))
-            # failures of ordinary clauses inside a twin duplicate the main variant's: ignored
     n_failed = len(violations)
     rc = 0
     lines = []
